@@ -22,7 +22,7 @@ MANIFEST = dict(
          "Known finding: generators.uuid yields UUID objects the client cannot serialise (pinned by tests/client/test_generators.py::test_uuid).",
 )
 BOUNDS = {
-    'quick': {'single': '4 notations x 5 argument shapes x 4 behaviours x 4 client/dispatcher pairings x strict', 'batch': '4 notations x compositions of 1..2 over {call ok, call failing, notification} (+ 3 for the add notation) x 2 pairings',
+    'quick': {'single': '4 notations x 8 argument shapes (positional / named scalars, one positional object / array / null) x 4 behaviours x 4 client/dispatcher pairings x strict', 'batch': '4 notations x compositions of 1..2 over {call ok, call failing, notification} (+ 3 for the add notation) x 2 pairings',
               'idgen': 'sequential(start, step != 0) symbolic; randint(a, b) and random(len<=2, chars) through the randomness stub; uuid'},
     'thorough': {'single': 'as quick', 'batch': 'compositions of 1..3 for all notations x 4 pairings', 'idgen': 'as quick'},
 }
@@ -32,7 +32,7 @@ ASSUMPTIONS = ['sequential step != 0', 'random ids of one batch are pairwise dis
 BUDGET = {'quick': 50.0, 'thorough': 200.0}
 
 PAIRINGS = (('sync', 'sync'), ('sync', 'async'), ('async', 'sync'), ('async', 'async'))
-ARGS = ('p0', 'p1', 'p2', 'n1', 'n2')
+ARGS = ('p0', 'p1', 'p2', 'n1', 'n2', 'pd', 'pl', 'pn')
 BEHAVIOURS = ('sub', 'typed', 'unreg', 'boom')
 
 
@@ -66,9 +66,7 @@ def obligations(tier):
                     continue            # batch[...] has no notation for notifications
                 if note in ('chain', 'bproxy') and 'notif' in comp:
                     continue            # neither has batch(...) / batch.proxy
-                for rot in (0, 1, 2):
-                    if note == 'getitem' and rot:
-                        continue        # batch[...] only has positional arguments
+                for rot in (0, 1, 2, 3):
                     obs.append({'h': 'batch', 'ck': ck, 'dk': dk, 'note': note, 'comp': list(comp), 'rot': rot, 'strict': True,
                                 '_weight': 3 ** n})
     for (ck, dk), gen, shape in it.product((('sync', 'sync'), ('async', 'async')), ('sequential', 'randint', 'random', 'uuid'), ('call', 'batch2')):
@@ -172,6 +170,12 @@ class _World:
 def _args(env, shape, tag=''):
     if shape == 'p0':
         return (), {}
+    if shape == 'pd':         # ONE positional argument whose value is a JSON object
+        return ({'a': env.int(f'a{tag}'), 'k': None},), {}
+    if shape == 'pl':         # one positional argument whose value is a JSON array
+        return ([env.int(f'a{tag}'), 'x'],), {}
+    if shape == 'pn':         # one positional null
+        return (None,), {}
     if shape == 'p1':
         return (env.int(f'a{tag}'),), {}
     if shape == 'p2':
@@ -327,7 +331,10 @@ def h_batch(ob):
         items = []
         for i, k in enumerate(ob['comp']):
             beh = 'sub' if k in ('ok', 'notif') else ('typed' if i % 2 == 0 else 'boom')
-            shape = 'p1' if ob['note'] == 'getitem' else ('p1', 'n1', 'n2')[(i + ob.get('rot', 0)) % 3]
+            if ob['note'] == 'getitem':
+                shape = ('p1', 'pd', 'pl', 'pn')[(i + ob.get('rot', 0)) % 4]
+            else:
+                shape = ('p1', 'n1', 'n2', 'pd')[(i + ob.get('rot', 0)) % 4]
             args, kwargs = _args(env, shape, str(i))
             items.append((k, beh, args, kwargs))
         exps = [_expected(w, beh, args, kwargs) for k, beh, args, kwargs in items]
